@@ -116,8 +116,9 @@ CLAIMED["C20"] = dict(
          "on every type except OPT and private types (refuted there: known findings), ignores TTL, owner case and the case of every "
          "embedded wire name, compares every packed field (cross-check against the zmsg.go layouts), and two names are equal iff their "
          "lower-cased wire forms are; Dedup = first occurrence per key, in order, with the minimum TTL of the group; normalizedString "
-         "cuts the TTL and lower-cases the owner; model tied to /repo by the translator plus vm_compute correspondence; the "
-         "wire-octet characterisation of RDATA equality by direct oracle (partial)",
+         "cuts the TTL and lower-cases the owner; for records from the wire with complete, canonically encoded RDATA (every type but OPT) "
+         "IsDuplicate holds exactly when type, class, lower-cased owner and name-lower-cased uncompressed RDATA octets are equal, with "
+         "refuting octets for each lenient encoding; model tied to /repo by the translator plus vm_compute correspondence",
     technique="machine-checked proof in Coq over translator-regenerated comparison tables + model/implementation correspondence by vm_compute")
 CLAIMED["C08"] = dict(
     text="Coq theorems for ALL records and messages over the pack sequences and len() terms regenerated from zmsg.go/ztypes.go on "
